@@ -155,6 +155,12 @@ def standard_check(spec, argv):
             if b.get('failed_file') and b['failed_file'].startswith('theories/Pins/'):
                 broken = ('source changed since the model was validated against it (obligation %s_source_pinned): %s'
                           % (prop, '; '.join(gen_pins.diff(prop)[:12])))
+            # the other obligations that no longer check in the same build (e.g. a *_is_translation proof over the
+            # regenerated term next to the source pin): all of them are named, not only the first
+            others = [f for f in b.get('failures', []) if f['file'] != b.get('failed_file')]
+            if others:
+                broken += ' || also broken: ' + ' | '.join('%s (in %s line %s): %s' % (f['lemma'], f['file'], f['line'], (f['error'] or '')[:160].replace('\n', ' '))
+                                                          for f in others[:6])
         else:
             broken = 'assumptions: ' + '; '.join(rep['bad_axioms'][:5]) + rep['log'][-400:]
         log(broken)
